@@ -7,7 +7,7 @@ from props._semprop import fill
 from sem import run_semantic
 
 MODULE = "Proofs.Props.C01"
-THEOREMS = ["Facto.Circuit.evalEnt_local", "Facto.Circuit.settle"]
+THEOREMS = ["Facto.Circuit.evalEnt_local", "Facto.Circuit.settle", "Facto.scalar_end_to_end", "Facto.read_isolated"]
 
 
 def run(res, tier):
